@@ -14,6 +14,7 @@ type World struct {
 	MapOrder int   // 0 ascending/lowest, 1 descending/highest, 2 tape-chosen
 	FLObs    func(db *bolt.DB, ev *fl.VerifEvent)
 	OnWrite  func(db *bolt.DB, off int64, n int) // observer called before every pwrite
+	OnPoint  func(db *bolt.DB, point string)     // observer called at every yield point (before parking)
 }
 
 func (w *World) perm(n int) []int {
@@ -91,6 +92,12 @@ func (w *World) Install() {
 	if w.Sched != nil {
 		h.Lock = w.Sched.Lock
 		h.Yield = w.Sched.Yield
+		if w.OnPoint != nil {
+			h.Yield = func(db *bolt.DB, point string) {
+				w.OnPoint(db, point)
+				w.Sched.Yield(db, point)
+			}
+		}
 		h.OnceEnter = w.Sched.OnceEnter
 		h.OnceExit = w.Sched.OnceExit
 	}
